@@ -14,6 +14,10 @@
 //! healthy or damaged in three ways, decoded length on a geometric scale) and the way its /Length is stated (direct, an
 //! object of its own, one object shared by several streams), for object streams and ordinary streams, in every sequence
 //! of 1 and 2 streams and in long files; what becomes of a stream must not depend on its neighbours or on earlier loads.
+//! A fourth family (see `layouts`) varies the layout of the file around its ordinary objects: bytes in front of the
+//! header (none .. 2 MiB), cross-reference table or stream, cross-reference entries that point at an object carrying
+//! another number than the entry's (so that two in-use entries yield the same object id), header markers inside the
+//! objects, short files exhaustively and long files for real work splitting.
 #![allow(dead_code)]
 use crate::common::*;
 use lopdf::{Document, Object};
@@ -186,11 +190,12 @@ fn first_diff(a: &str, b: &str) -> String {
 pub fn digests(thorough: bool) -> Value {
     set_order(usize::MAX);
     let mut m = serde_json::Map::new();
-    // LOPDF_VERIF_C08_PART = "specs" / "limits" / "streams" asks for one of the three families only (the caller runs them concurrently)
+    // LOPDF_VERIF_C08_PART = "specs" / "limits" / "streams" / "layouts" asks for one of the four families only (the caller runs them concurrently)
     let part = std::env::var("LOPDF_VERIF_C08_PART").unwrap_or_default();
     let wanted = |p: &str| part.is_empty() || part == p;
     // LOPDF_VERIF_C08_SHOW = the name of a file of the third family: its document as loaded on a fresh thread, nothing else
     if let Ok(name) = std::env::var("LOPDF_VERIF_C08_SHOW") {
+        if let Some(l) = lay_from(&name) { return json!({"file": name, "document": load_fresh3(&build_layout_file(&l)).unwrap_or_else(|e| e)}); }
         let f = stfile_from(&name).unwrap_or_default();
         return json!({"file": name, "document": load_fresh3(&build_stream_file(&whole(&f))).unwrap_or_else(|e| e)});
     }
@@ -211,6 +216,13 @@ pub fn digests(thorough: bool) -> Value {
         m.insert("stream-alphabet".into(), json!(out.alphabet));
         for (name, (_, loaded)) in out.files { m.insert(format!("S:{}", name), json!(loaded)); }
         m.insert("stream-failures".into(), failures(&rep));
+    }
+    if wanted("layouts") {
+        // the fourth family, likewise
+        let mut rep = Report::new("fourth family on this build", false);
+        let out = layouts(thorough, &[], "a long-lived plain thread", 1, &mut rep);
+        for (name, sig) in out.files { m.insert(format!("Y:{}", name), json!(sig)); }
+        m.insert("layout-failures".into(), failures(&rep));
     }
     Value::Object(m)
 }
@@ -1145,13 +1157,445 @@ fn replay_streams(v: &Value) -> Result<(), String> {
     verdict(&rep)
 }
 
+// ---------------------------------------------------------------------------------------------------------------------
+// Fourth family: LAYOUT OF THE FILE AROUND ITS ORDINARY OBJECTS: bytes in front of the header x form of the
+// cross-reference section x the number in an object's header against the key of the entry that points at it x header
+// markers inside the objects x length of the file.
+//
+// "Loading the same bytes always produces the same document ... and the result equals that of loading with parallelism
+// disabled" quantifies over all files, and every step of the loader that is spread over workers is part of "the thread
+// schedule": finding where the document starts in the buffer, walking the cross-reference entries, collecting what the
+// walk yields. The first three families only hold files that begin with their header, whose entries all point at an
+// object carrying the entry's own number, and in which the header marker occurs once. This family varies exactly that:
+//  * bytes in front of the header (which the loader supports: offsets count from the header): none, or 2^p bytes of
+//    wrapper text (with near misses of the marker) on a geometric scale, short files p = 7, 13 (thorough 7, 10, 13,
+//    16, 19), long files p = 7, 19 (thorough 7, 19, 21), so that the search for the header is one read or is
+//    itself work to be split among workers;
+//  * the cross-reference section: a classic table with trailer, or a cross-reference stream;
+//  * slot alphabet L = relation x body. Entry number 3+j of the file points at an object whose header says: its own
+//    number / the number of the next entry / of the previous entry / of the entry half a file away (these three: the
+//    entry is stale or mislabelled and points at another copy of an object that a second entry points at as well, so
+//    two in-use entries yield the same object id - duplicate object numbers among ordinary objects) / a number that has
+//    no entry. The object is a dictionary, a dictionary with a string that holds the header marker, or an embedded-file
+//    stream without filter whose data is a complete small PDF file (header marker, xref, trailer and all). Every copy
+//    says in /Slot which entry it was written for, so the document shows which copy was taken;
+//  * files: every sequence of 1 and 2 (thorough: with no or 128 bytes in front, 3) slots of L, and long files of 64 and
+//    400 (thorough also 1000) slots for real work splitting: per relation but "own" the relation alternating with
+//    "own" (e.g. every other entry stale) and the relation throughout, and files drawn from L;
+//  * oracle: the property itself - every load on every pool gives the document that one fresh thread gives (a pool of
+//    one worker that parses everything in file order), and that document equals the sequential build's. Independent of
+//    the loader: the version is the one the file's header states, the document holds exactly the numbers that the
+//    headers of the objects state (plus catalog, page tree root, cross-reference stream), and every object is one of
+//    the copies that were written under its number (put together from the library's data types, no parser involved).
+//  * loads: every file on a fresh thread; long-lived pools of 1,2,3,4,8,16 threads and the global pool (driven
+//    concurrently) load every short file once and every long file `repeats` (at most 10) times.
+
+#[derive(Clone, Copy, Debug, PartialEq, Eq, Hash, PartialOrd, Ord)]
+pub enum Rel { Own, Next, Prev, Far, Orphan }
+const RELS: [Rel; 5] = [Rel::Own, Rel::Next, Rel::Prev, Rel::Far, Rel::Orphan];
+#[derive(Clone, Copy, Debug, PartialEq, Eq, Hash, PartialOrd, Ord)]
+pub enum Body { Dict, Marked, Embedded }
+const BODIES: [Body; 3] = [Body::Dict, Body::Marked, Body::Embedded];
+/// one slot of the file: what the header of the object says that entry 3+j points at, and what the object is
+#[derive(Clone, Copy, Debug, PartialEq, Eq, Hash, PartialOrd, Ord)]
+pub struct Ls { pub rel: Rel, pub body: Body }
+#[derive(Clone, Debug, PartialEq)]
+pub enum Shape {
+    /// the slots spelled out
+    Seq(Vec<Ls>),
+    /// n slots: the relation at the even positions, "own" at the odd ones; bodies in turn
+    Alt(Rel, usize),
+    /// n slots, all of the relation; bodies in turn
+    All(Rel, usize),
+    /// n slots drawn from L with this seed
+    Drawn(u32, usize),
+}
+/// `prefix`: 0 = the file begins with its header, p > 0 = 2^p bytes in front of it
+#[derive(Clone, Debug, PartialEq)]
+pub struct Lay { pub table: bool, pub prefix: u32, pub shape: Shape }
+
+/// bytes in front of the header (binary logarithm; 0 = none) for the short files and for the long ones
+const PREFIX_QUICK: [u32; 3] = [0, 7, 13];
+const PREFIX_QUICK_LONG: [u32; 3] = [0, 7, 19];
+const PREFIX_THOROUGH: [u32; 6] = [0, 7, 10, 13, 16, 19];
+const PREFIX_THOROUGH_LONG: [u32; 4] = [0, 7, 19, 21];
+const PREFIX_MAX: u32 = 21;
+const LAY_MAX_SLOTS: usize = 1000;
+/// a long file is loaded `repeats` times on every pool, but not more often than this
+const LAY_REPEATS_MAX: usize = 10;
+const ORPHAN0: u32 = 5000;
+const MARKED_NOTE: &str = "%PDF-1.2 is not where this file starts";
+
+fn rel_char(r: Rel) -> char { match r { Rel::Own => 'O', Rel::Next => 'N', Rel::Prev => 'P', Rel::Far => 'F', Rel::Orphan => 'X' } }
+fn rel_from(c: char) -> Option<Rel> { Some(match c { 'O' => Rel::Own, 'N' => Rel::Next, 'P' => Rel::Prev, 'F' => Rel::Far, 'X' => Rel::Orphan, _ => return None }) }
+fn rel_words(r: Rel) -> &'static str { match r { Rel::Own => "its own number", Rel::Next => "the number of the next entry", Rel::Prev => "the number of the previous entry", Rel::Far => "the number of the entry half a file away", Rel::Orphan => "a number that has no entry" } }
+fn ls_name(s: &Ls) -> String { format!("{}{}", rel_char(s.rel), match s.body { Body::Dict => 'd', Body::Marked => 'm', Body::Embedded => 'e' }) }
+fn ls_from(t: &str) -> Option<Ls> {
+    let c: Vec<char> = t.chars().collect();
+    if c.len() != 2 { return None; }
+    Some(Ls { rel: rel_from(c[0])?, body: match c[1] { 'd' => Body::Dict, 'm' => Body::Marked, 'e' => Body::Embedded, _ => return None } })
+}
+pub fn lay_name(l: &Lay) -> String {
+    let shape = match &l.shape {
+        Shape::Seq(v) => format!("seq:{}", v.iter().map(ls_name).collect::<Vec<_>>().join(",")),
+        Shape::Alt(r, n) => format!("alt:{}:{}", rel_char(*r), n),
+        Shape::All(r, n) => format!("all:{}:{}", rel_char(*r), n),
+        Shape::Drawn(seed, n) => format!("drawn:{}:{}", seed, n),
+    };
+    format!("{}-p{}-{}", if l.table { 't' } else { 'x' }, l.prefix, shape)
+}
+fn lay_from(t: &str) -> Option<Lay> {
+    let mut parts = t.splitn(3, '-');
+    let table = match parts.next()? { "t" => true, "x" => false, _ => return None };
+    let prefix: u32 = parts.next()?.strip_prefix('p')?.parse().ok()?;
+    if prefix > PREFIX_MAX { return None; }
+    let shape = parts.next()?;
+    let (kind, rest) = shape.split_once(':')?;
+    let pair = |rest: &str| -> Option<(String, usize)> { let (a, n) = rest.split_once(':')?; let n: usize = n.parse().ok()?; if n == 0 || n > LAY_MAX_SLOTS { return None; } Some((a.to_string(), n)) };
+    let shape = match kind {
+        "seq" => { let v: Vec<Ls> = rest.split(',').map(ls_from).collect::<Option<_>>()?; if v.is_empty() || v.len() > LAY_MAX_SLOTS { return None; } Shape::Seq(v) }
+        "alt" => { let (a, n) = pair(rest)?; Shape::Alt(rel_from(a.chars().next()?)?, n) }
+        "all" => { let (a, n) = pair(rest)?; Shape::All(rel_from(a.chars().next()?)?, n) }
+        "drawn" => { let (a, n) = pair(rest)?; Shape::Drawn(a.parse().ok()?, n) }
+        _ => return None,
+    };
+    Some(Lay { table, prefix, shape })
+}
+fn lay_alphabet() -> Vec<Ls> { let mut v = vec![]; for rel in RELS { for body in BODIES { v.push(Ls { rel, body }); } } v }
+pub fn lay_slots(l: &Lay) -> Vec<Ls> {
+    match &l.shape {
+        Shape::Seq(v) => v.clone(),
+        Shape::Alt(r, n) => (0..*n).map(|j| Ls { rel: if j % 2 == 0 { *r } else { Rel::Own }, body: BODIES[(j / 2) % 3] }).collect(),
+        Shape::All(r, n) => (0..*n).map(|j| Ls { rel: *r, body: BODIES[j % 3] }).collect(),
+        Shape::Drawn(seed, n) => {
+            let o = lay_alphabet();
+            let mut x: u32 = 2463534242u32.wrapping_add(4242).wrapping_add(seed.wrapping_mul(2654435761));
+            (0..*n).map(|_| { x = x.wrapping_mul(1103515245).wrapping_add(12345); o[((x >> 16) as usize) % o.len()] }).collect()
+        }
+    }
+}
+fn lay_words(l: &Lay) -> String {
+    let shape = match &l.shape {
+        Shape::Seq(v) => format!("{} object(s) whose headers say: {}", v.len(), v.iter().map(|s| rel_words(s.rel)).collect::<Vec<_>>().join("; ")),
+        Shape::Alt(r, n) => format!("{} objects, every other header says {}", n, rel_words(*r)),
+        Shape::All(r, n) => format!("{} objects, every header says {}", n, rel_words(*r)),
+        Shape::Drawn(_, n) => format!("{} objects drawn from the slot alphabet", n),
+    };
+    format!("{}, {}, {}", if l.prefix == 0 { "the file begins with its header".to_string() } else { format!("{} bytes in front of the header", 1u64 << l.prefix) }, if l.table { "cross-reference table" } else { "cross-reference stream" }, shape)
+}
+
+/// the key of the cross-reference entry of slot j
+fn lay_key(j: usize) -> u32 { 3 + j as u32 }
+/// "half a file away": an odd distance, so that in an alternating file the far entry is one that says its own number
+fn lay_far(n: usize) -> usize { if n < 2 { 0 } else { ((n / 2) | 1) % n } }
+/// the number in the header of the object that the entry of slot j points at
+fn lay_says(slots: &[Ls], j: usize) -> u32 {
+    let n = slots.len();
+    match slots[j].rel { Rel::Own => lay_key(j), Rel::Next => lay_key((j + 1) % n), Rel::Prev => lay_key((j + n - 1) % n), Rel::Far => lay_key((j + lay_far(n)) % n), Rel::Orphan => ORPHAN0 + j as u32 }
+}
+fn lay_numbers(j: usize) -> Vec<i64> { (0..8).map(|i| ((j * 31 + i) % 1000) as i64).collect() }
+/// a complete small PDF file (the data of the embedded-file stream of slot j)
+fn lay_embedded(j: usize) -> Vec<u8> {
+    let mut doc = format!("%PDF-1.4\n% attachment {}\n", j).into_bytes();
+    let mut offsets = vec![];
+    let objects = ["<</Type/Catalog/Pages 2 0 R>>".to_string(), "<</Type/Pages/Kids[3 0 R]/Count 1>>".to_string(), format!("<</Type/Page/Parent 2 0 R/MediaBox[0 0 {} {}]>>", 100 + j, 200 + j)];
+    for (i, body) in objects.iter().enumerate() { offsets.push(doc.len()); doc.extend_from_slice(format!("{} 0 obj\n{}\nendobj\n", i + 1, body).as_bytes()); }
+    let xref = doc.len();
+    doc.extend_from_slice(b"xref\n0 4\n0000000000 65535 f \n");
+    for o in offsets { doc.extend_from_slice(format!("{:010} 00000 n \n", o).as_bytes()); }
+    doc.extend_from_slice(format!("trailer\n<</Size 4/Root 1 0 R>>\nstartxref\n{}\n%%EOF\n", xref).as_bytes());
+    doc
+}
+/// the text of the object of slot j (without `h 0 obj` / `endobj`), `h` the number in its header
+fn lay_text(s: &Ls, j: usize, h: u32) -> Vec<u8> {
+    let data = lay_numbers(j).iter().map(|x| x.to_string()).collect::<Vec<_>>().join(" ");
+    match s.body {
+        Body::Dict => format!("<< /Slot {} /Says {} /Data [{}] >>", j, h, data).into_bytes(),
+        Body::Marked => format!("<< /Slot {} /Says {} /Note ({}) /Data [{}] >>", j, h, MARKED_NOTE, data).into_bytes(),
+        Body::Embedded => {
+            let e = lay_embedded(j);
+            let mut t = format!("<< /Type /EmbeddedFile /Slot {} /Says {} /Length {} >>\nstream\n", j, h, e.len()).into_bytes();
+            t.extend_from_slice(&e); t.extend_from_slice(b"\nendstream");
+            t
+        }
+    }
+}
+/// how an object of the family is rendered for the comparison with what was written
+fn lay_render(o: &Object) -> String { match o { Object::Stream(s) => format!("stream{{{:?}|{}}}", s.dict, stream_mark(&s.content)), other => format!("{:?}", other) } }
+/// the same object put together from the library's data types (no parser involved), rendered
+fn lay_written(s: &Ls, j: usize, h: u32) -> String {
+    let mut d = lopdf::Dictionary::new();
+    if s.body == Body::Embedded { d.set("Type", Object::Name(b"EmbeddedFile".to_vec())); }
+    d.set("Slot", Object::Integer(j as i64)); d.set("Says", Object::Integer(h as i64));
+    match s.body {
+        Body::Embedded => { let e = lay_embedded(j); d.set("Length", Object::Integer(e.len() as i64)); format!("stream{{{:?}|{}}}", d, stream_mark(&e)) }
+        _ => {
+            if s.body == Body::Marked { d.set("Note", Object::string_literal(MARKED_NOTE)); }
+            d.set("Data", Object::Array(lay_numbers(j).into_iter().map(Object::Integer).collect()));
+            format!("{:?}", Object::Dictionary(d))
+        }
+    }
+}
+/// 2^p bytes of wrapper text without the header marker (but with near misses of it)
+fn lay_prefix(p: u32) -> Vec<u8> {
+    const LINE: &[u8] = b"X-Wrapper-Padding: %PDF %PD F-1.5 %PDF_1.5 PDF-1.5 ........................\r\n";
+    let n = 1usize << p;
+    let mut v = Vec::with_capacity(n);
+    while v.len() + LINE.len() <= n { v.extend_from_slice(LINE); }
+    v.resize(n, b'.');
+    v
+}
+
+/// Objects 1 catalog, 2 page tree root, then for slot j the object that entry 3+j points at (its header says
+/// `lay_says`); a classic table of 3+n entries with trailer, or the cross-reference stream (object 900 or, in files of
+/// more than 800 slots, 3+n); offsets count from the header; the bytes in front of the header come first.
+pub fn build_layout_file(l: &Lay) -> Vec<u8> { lay_with_prefix(l.prefix, &lay_document(l)) }
+fn lay_with_prefix(p: u32, f: &[u8]) -> Vec<u8> {
+    if p == 0 { return f.to_vec(); }
+    let mut out = lay_prefix(p);
+    out.extend_from_slice(f);
+    out
+}
+/// the file from its header on (the same whatever stands in front of it)
+fn lay_document(l: &Lay) -> Vec<u8> {
+    let slots = lay_slots(l);
+    let mut f: Vec<u8> = b"%PDF-1.5\n%\xE2\xE3\xCF\xD3\n".to_vec();
+    let mut ent: BTreeMap<u32, Ent> = BTreeMap::new();
+    ent.insert(0, Ent::Free);
+    let mut put = |f: &mut Vec<u8>, key: u32, says: u32, body: &[u8]| {
+        ent.insert(key, Ent::Normal(f.len()));
+        f.extend_from_slice(format!("{} 0 obj\n", says).as_bytes()); f.extend_from_slice(body); f.extend_from_slice(b"\nendobj\n");
+    };
+    put(&mut f, 1, 1, b"<< /Type /Catalog /Pages 2 0 R >>");
+    put(&mut f, 2, 2, b"<< /Type /Pages /Kids [] /Count 0 >>");
+    for (j, s) in slots.iter().enumerate() { let h = lay_says(&slots, j); put(&mut f, lay_key(j), h, &lay_text(s, j, h)); }
+    if l.table {
+        let xpos = f.len();
+        let size = 3 + slots.len();
+        f.extend_from_slice(format!("xref\n0 {}\n0000000000 65535 f \n", size).as_bytes());
+        for k in 1..size as u32 { let Some(Ent::Normal(o)) = ent.get(&k) else { unreachable!() }; f.extend_from_slice(format!("{:010} 00000 n \n", o).as_bytes()); }
+        f.extend_from_slice(format!("trailer\n<< /Size {} /Root 1 0 R >>\nstartxref\n{}\n%%EOF\n", size, xpos).as_bytes());
+    } else {
+        write_xref(&mut f, &mut ent, lay_xref_id(slots.len()));
+    }
+    f
+}
+fn lay_xref_id(n: usize) -> u32 { if n > 800 { lay_key(n) } else { XREF_ID } }
+
+fn lay_input(l: &Lay, at: Value, obligation: &str, thorough: bool) -> Value { json!({"layout": lay_name(l), "at": at, "obligation": obligation, "tier": if thorough { "thorough" } else { "quick" }}) }
+fn list_of(v: &[u32]) -> String { let t: Vec<String> = v.iter().map(|x| x.to_string()).collect(); match t.len() { 0 => "no entry".into(), 1 => format!("entry {}", t[0]), n => format!("the entries {} and {}", t[..n - 1].join(", "), t[n - 1]) } }
+/// number in a header -> the entries that point at an object with this header
+fn lay_claims(slots: &[Ls]) -> BTreeMap<u32, Vec<u32>> { let mut m: BTreeMap<u32, Vec<u32>> = BTreeMap::new(); for j in 0..slots.len() { m.entry(lay_says(slots, j)).or_default().push(lay_key(j)); } m }
+
+/// what does not depend on the loader: version, the set of object numbers, every object one of the copies written
+fn lay_violations(d: &Document, l: &Lay) -> Vec<String> {
+    let slots = lay_slots(l);
+    let claims = lay_claims(&slots);
+    let mut v = vec![];
+    if d.version != "1.5" { v.push(format!("the document has version {:?}, the header of the file says 1.5", d.version)); }
+    for k in [1u32, 2] { if !d.objects.contains_key(&(k, 0)) { v.push(format!("object {} (written once, at entry {}) is not in the document", k, k)); } }
+    for (h, keys) in &claims { if !d.objects.contains_key(&(*h, 0)) { v.push(format!("object {} (the number in the header of the object at {}) is not in the document", h, list_of(keys))); } }
+    for (id, o) in &d.objects {
+        if id.1 == 0 && (id.0 == 1 || id.0 == 2 || (!l.table && id.0 == lay_xref_id(slots.len()))) { continue; }
+        let Some(keys) = claims.get(&id.0).filter(|_| id.1 == 0) else { v.push(format!("object {} {} is in the document, no object of the file has this number in its header", id.0, id.1)); continue };
+        let got = lay_render(o);
+        if !keys.iter().any(|k| { let j = (*k - 3) as usize; lay_written(&slots[j], j, id.0) == got }) {
+            v.push(format!("object {} is none of the objects written under this number (at {}): it is {}", id.0, list_of(keys), got.chars().take(120).collect::<String>()));
+        }
+    }
+    v
+}
+/// load on a fresh thread: the digest and what is wrong with the document whatever another load may give
+fn lay_fresh(bytes: &[u8], l: &Lay) -> Result<(String, Vec<String>), String> {
+    on_fresh_thread(|| match std::panic::catch_unwind(std::panic::AssertUnwindSafe(|| Document::load_mem(bytes))) {
+        Err(e) => Err(format!("panic: {}", if let Some(s) = e.downcast_ref::<String>() { s.clone() } else if let Some(s) = e.downcast_ref::<&str>() { s.to_string() } else { "?".to_string() })),
+        Ok(Err(e)) => Ok((format!("load error: {}", e), vec![])),
+        Ok(Ok(d)) => Ok((digest3(&d), lay_violations(&d, l))),
+    })
+}
+fn signature4(d: &str) -> String { if d.starts_with("version=") { format!("{:016x}:{} objects", fnv(d), d.lines().count() - 1) } else { d.chars().take(80).collect() } }
+
+/// how a digest differs from the reference, in terms of the entries of the file; `reference`: where `want` was got ("on ..", "in ..")
+fn lay_diff(got: &str, want: &str, l: &Lay, reference: &str) -> String {
+    let cut = |s: &str| s.chars().take(140).collect::<String>();
+    if !got.starts_with("version=") || !want.starts_with("version=") { return format!("the load gives {:?}; {} it gives {:?}", cut(got.lines().next().unwrap_or("")), reference, cut(want.lines().next().unwrap_or(""))); }
+    let ((gh, g), (wh, w)) = (digest_lines(got), digest_lines(want));
+    if gh != wh { return format!("the document begins {:?}; {} it begins {:?}", cut(&gh), reference, cut(&wh)); }
+    let claims = lay_claims(&lay_slots(l));
+    let copy = |o: Option<&String>| match o {
+        None => "is not in the document".to_string(),
+        Some(r) => match r.find("/Slot ").and_then(|p| r[p + 6..].split(|c: char| !c.is_ascii_digit()).next().and_then(|t| t.parse::<u32>().ok())) { Some(j) => format!("is the copy that entry {} points at", 3 + j), None => format!("is {}", cut(r)) },
+    };
+    let ids: std::collections::BTreeSet<(u32, u32)> = g.keys().chain(w.keys()).cloned().collect();
+    let differing: Vec<(u32, u32)> = ids.into_iter().filter(|id| g.get(id) != w.get(id)).collect();
+    match differing.first() {
+        Some(id) => format!("object {}{} {}; {} it {} ({} objects differ)", id.0, claims.get(&id.0).map(|k| format!(" (the number in the header of the object at {})", list_of(k))).unwrap_or_default(), copy(g.get(id)), reference, copy(w.get(id)), differing.len()),
+        None => first_diff(got, want),
+    }
+}
+
+fn lay_files(thorough: bool) -> Vec<Lay> {
+    let o = lay_alphabet();
+    let prefixes: &[u32] = if thorough { &PREFIX_THOROUGH } else { &PREFIX_QUICK };
+    let mut v = vec![];
+    for table in [true, false] {
+        for p in prefixes {
+            for a in &o { v.push(Lay { table, prefix: *p, shape: Shape::Seq(vec![*a]) }); }
+            for a in &o { for b in &o { v.push(Lay { table, prefix: *p, shape: Shape::Seq(vec![*a, *b]) }); } }
+            if thorough && *p <= 7 { for a in &o { for b in &o { for c in &o { v.push(Lay { table, prefix: *p, shape: Shape::Seq(vec![*a, *b, *c]) }); } } } }
+        }
+        let long_prefixes: &[u32] = if thorough { &PREFIX_THOROUGH_LONG } else { &PREFIX_QUICK_LONG };
+        let lengths: &[usize] = if thorough { &[64, 400, 1000] } else { &[64, 400] };
+        for p in long_prefixes { for n in lengths {
+            for r in RELS { if r != Rel::Own { v.push(Lay { table, prefix: *p, shape: Shape::Alt(r, *n) }); v.push(Lay { table, prefix: *p, shape: Shape::All(r, *n) }); } }
+            for seed in 0..(if thorough { 6u32 } else { 3 }) { v.push(Lay { table, prefix: *p, shape: Shape::Drawn(seed, *n) }); }
+        } }
+    }
+    v
+}
+fn lay_is_long(l: &Lay) -> bool { !matches!(l.shape, Shape::Seq(_)) }
+
+const OB_WRITTEN4: &str = "a-loaded-object-is-the-object-that-was-written";
+const WHAT4_POOL: &str = "another document than one fresh thread gets";
+
+pub struct LayOut { /// file -> signature of the document that one fresh thread gets
+    pub files: BTreeMap<String, String> }
+
+/// one load on a pool, judged against the hash of the fresh-thread digest; true if it was as expected
+fn judge4(rep: &mut Report, l: &Lay, bytes: &[u8], got: Result<String, String>, want_hash: u64, label: &str, nth: usize, at: Value, thorough: bool) -> bool {
+    rep.case(true);
+    let name = short4(&lay_name(l));
+    match got {
+        Err(p) => { rep.fail("no-panic", format!("[{}] {}: {}", name, label, p), lay_input(l, at, "no-panic", thorough), p.clone()); false }
+        Ok(d) if fnv(&d) == want_hash => true,
+        Ok(d) => {
+            let want = lay_fresh(bytes, l).map(|x| x.0).unwrap_or_else(|e| e);
+            let diff = lay_diff(&d, &want, l, "on one fresh thread");
+            rep.fail(OB_POOLS, format!("[{}] {} ({}; load number {} of this file on {}): {}", name, WHAT4_POOL, lay_words(l), nth, label, diff), lay_input(l, at, OB_POOLS, thorough), diff.clone());
+            false
+        }
+    }
+}
+fn short4(name: &str) -> String { if name.len() > 70 { format!("{}...", &name[..70]) } else { name.to_string() } }
+
+/// The whole fourth family on this build; `sizes`, `here`, `repeats` as in `limits`.
+pub fn layouts(thorough: bool, sizes: &[usize], here: &str, repeats: usize, rep: &mut Report) -> LayOut {
+    set_order(usize::MAX);
+    let workers = 8;
+    let t0 = std::time::Instant::now();
+    let lap = |what: &str| if std::env::var("LOPDF_VERIF_C08_TIMES").is_ok() { eprintln!("c08 fourth family, {}: {:.1} s", what, t0.elapsed().as_secs_f64()); };
+    let files = lay_files(thorough);
+    let mut out = LayOut { files: BTreeMap::new() };
+    // the long documents are put together once (what stands in front of the header does not change them)
+    let doc_key = |l: &Lay| lay_name(&Lay { prefix: 0, ..l.clone() });
+    let mut long_docs: std::collections::HashMap<String, Vec<u8>> = Default::default();
+    for l in files.iter().filter(|l| lay_is_long(l)) { long_docs.entry(doc_key(l)).or_insert_with(|| lay_document(l)); }
+    let build = |l: &Lay| match long_docs.get(&doc_key(l)) { Some(d) => lay_with_prefix(l.prefix, d), None => build_layout_file(l) };
+    // one fresh thread loads the file: the reference, judged by what was written
+    let fresh = fan(workers, files.len(), rep, &|i, rep: &mut Report| {
+        let l = &files[i];
+        let name = short4(&lay_name(l));
+        let bytes = build(l);
+        rep.case(true);
+        match lay_fresh(&bytes, l) {
+            Err(p) => { rep.fail("no-panic", format!("[{}] on a fresh thread: {}", name, p), lay_input(l, json!("fresh"), "no-panic", thorough), p.clone()); None }
+            Ok((d, _)) if !d.starts_with("version=") => { rep.fail("generated-file-loads", format!("[{}] one fresh thread does not load the file ({}): {}", name, lay_words(l), d), lay_input(l, json!("fresh"), "generated-file-loads", thorough), d.clone()); Some((signature4(&d), fnv(&d))) }
+            Ok((d, wrong)) => {
+                for w in wrong.iter().take(2) { rep.fail(OB_WRITTEN4, format!("[{}] loaded by one fresh thread ({}): {}", name, lay_words(l), w), lay_input(l, json!("fresh"), OB_WRITTEN4, thorough), w.clone()); }
+                Some((signature4(&d), fnv(&d)))
+            }
+        }
+    });
+    lap("fresh threads done");
+    let mut kept: Vec<(usize, u64)> = vec![];
+    for (i, (sig, h)) in fresh { out.files.insert(lay_name(&files[i]), sig); kept.push((i, h)); }
+    // pools that live through the whole family, all at the same time: short files once, long files `repeats` times
+    let mut labels: Vec<(String, usize)> = vec![(here.to_string(), 0)];
+    for t in sizes { labels.push((format!("a pool of {} threads", t), *t)); }
+    fan(labels.len(), labels.len(), rep, &|p, rep: &mut Report| {
+        let (label, t) = &labels[p];
+        let pool = if *t == 0 { None } else { Some(big_pool(*t)) };
+        let mut failed = 0;
+        for (i, want) in &kept {
+            let l = &files[*i];
+            let bytes = build(l);
+            let n = if lay_is_long(l) { repeats.min(LAY_REPEATS_MAX) } else { 1 };
+            for r in 0..n { if !judge4(rep, l, &bytes, load3_on(&pool, &bytes), *want, label, r, json!({"threads": t}), thorough) { failed += 1; break; } }
+            if failed >= 12 { break; }   // a faulty loader: enough said on this pool
+        }
+        None::<()>
+    });
+    lap("pools done");
+    out
+}
+
+/// the document of one file of the fourth family as the sequential build loads it on a fresh thread
+fn seq_layout_document(name: &str) -> Result<String, String> {
+    let bin = std::env::var("LOPDF_VERIF_SEQ_BIN").map_err(|_| "LOPDF_VERIF_SEQ_BIN is not set".to_string())?;
+    let out = std::process::Command::new(bin).env("LOPDF_VERIF_C08_SHOW", name).arg("c08-digests").output().map_err(|e| format!("sequential build did not start: {}", e))?;
+    let text = String::from_utf8_lossy(&out.stdout).to_string();
+    let line = text.lines().find(|l| l.starts_with('{')).ok_or("sequential build printed nothing")?;
+    let v: Value = serde_json::from_str(line).map_err(|e| e.to_string())?;
+    v["document"].as_str().map(|s| s.to_string()).ok_or("no document".to_string())
+}
+
+/// the fourth family on this (parallel) build, and the comparison with the sequential build
+fn check_layouts(thorough: bool, seq: impl FnOnce() -> Value, repeats: usize, rep: &mut Report) {
+    let out = layouts(thorough, &[1, 2, 3, 4, 8, 16], "the global pool", repeats, rep);
+    let seq = &seq();
+    const OB: &str = "equals-sequential-build";
+    let mut explained = 0;
+    for (name, want) in &out.files {
+        rep.case(true);
+        let got = seq.get(format!("Y:{}", name)).and_then(|x| x.as_str()).unwrap_or("(no digest)");
+        if got == want { continue; }
+        let Some(l) = lay_from(name) else { continue };
+        // the first few in terms of the entries of the file, the others by hash
+        let diff = if explained < 3 { explained += 1; match (lay_fresh(&build_layout_file(&l), &l), seq_layout_document(name)) { (Ok((mine, _)), Ok(theirs)) => lay_diff(&mine, &theirs, &l, "in the sequential build"), _ => String::new() } } else { String::new() };
+        rep.fail(OB, format!("[{}] one fresh thread of this build and the sequential build load different documents ({}; hash:objects {} against {}): {}", short4(name), lay_words(&l), want, got, diff), lay_input(&l, json!("seq"), OB, thorough), got.to_string());
+    }
+    check_seq_failures(seq, "layout-failures", rep);
+}
+
+fn replay_layout(v: &Value) -> Result<(), String> {
+    let thorough = v["tier"].as_str() == Some("thorough");
+    let obligation = v["obligation"].as_str().unwrap_or("").to_string();
+    let mut rep = Report::new("replay", false);
+    let verdict = |rep: &Report| match rep.failures.iter().find(|x| x.obligation == obligation).or(rep.failures.first()) { None => Ok(()), Some(x) => Err(format!("{}: {}", x.obligation, x.detail)) };
+    set_order(usize::MAX);
+    if v["build"].as_str() == Some("sequential") {
+        let seq = seq_digests_part(thorough, "layouts")?;
+        check_seq_failures(&seq, "layout-failures", &mut rep);
+        return verdict(&rep);
+    }
+    let l = lay_from(v["layout"].as_str().unwrap_or("")).ok_or("not a file of the fourth family")?;
+    let bytes = build_layout_file(&l);
+    let at = &v["at"];
+    let (d, wrong) = lay_fresh(&bytes, &l)?;
+    if !d.starts_with("version=") { return Err(format!("generated-file-loads: [{}] one fresh thread does not load the file ({}): {}", lay_name(&l), lay_words(&l), d)); }
+    for w in wrong.iter().take(2) { rep.fail(OB_WRITTEN4, format!("[{}] loaded by one fresh thread ({}): {}", short4(&lay_name(&l)), lay_words(&l), w), lay_input(&l, json!("fresh"), OB_WRITTEN4, thorough), w.clone()); }
+    if at.as_str() == Some("fresh") { return verdict(&rep); }
+    if let Some(t) = at.get("threads").and_then(|x| x.as_u64()) {
+        // a fresh pool of this size (0: the global pool), many loads
+        let pool = if t == 0 { None } else { Some(big_pool(t as usize)) };
+        let label = if t == 0 { "the global pool".to_string() } else { format!("a pool of {} threads", t) };
+        for r in 0..200 { if !judge4(&mut rep, &l, &bytes, load3_on(&pool, &bytes), fnv(&d), &label, r, at.clone(), thorough) { break; } }
+        return verdict(&rep);
+    }
+    // the comparison with the sequential build
+    let theirs = seq_layout_document(&lay_name(&l))?;
+    if theirs != d { let diff = lay_diff(&d, &theirs, &l, "in the sequential build"); rep.fail("equals-sequential-build", format!("[{}] one fresh thread of this build and the sequential build load different documents ({}): {}", short4(&lay_name(&l)), lay_words(&l), diff), lay_input(&l, json!("seq"), "equals-sequential-build", thorough), diff.clone()); }
+    verdict(&rep)
+}
+
 pub fn run(thorough: bool) -> Report {
-    let mut rep = Report::new("files with k = 1..4 (thorough 6) object streams; one object number present in every stream with a different value and used as the /Length of a stream, its cross-reference entry designating each container in turn / free / absent / an ordinary object / a container that does not list it; an object listed twice in one index; zero-length and indirect-length streams; wide files (up to 8, thorough 16, containers x 300 index entries over a pool of few numbers). Per file: all k! merge orders through hook H1 (capped at 720), 6 pool sizes {1,2,3,4,8,16} x 3 (thorough 25) repeated loads, all compared with the --no-default-features build of the same harness. SECOND FAMILY (objects at a parser limit x history of the parsing threads): object alphabet O = {arrays, dictionaries, arrays and dictionaries alternating, parentheses in a literal string} x {ordinary object, member of an object stream} x nesting depth {2, A-1, A, A+1, A+6}, A = the deepest nesting that loads when the object is alone in a file (probed over 20..=112 on fresh threads; 40 objects); files = all sequences of 1 and 2 (thorough: and 3) objects of O, plus long files of 64 objects (A+1 and A alternating per kind and position: 8; drawn from O: 3, thorough 12). Oracle: every object fares in every load exactly as it does alone in a file on a fresh thread (and a loaded object equals the object written), the rest of the document is constant. Loads per file: a fresh pool of 1 thread (one worker parses everything in file order); long-lived pools of {1,2,3,4,8,16} threads and the global pool, which load all files of up to 2 objects and the long ones in turn and then a closed walk over the single-object files in which every ordered pair occurs back to back (driven concurrently; their history is the whole enumeration); long files on fresh pools of {1,2,3,4,8,16} threads x 3 (thorough 25) loads; every sequence of 2 (thorough 3) single-object files on one fresh thread; the same family run by the sequential build on itself (fresh threads, one long-lived worker, a plain thread) and its fresh-thread documents compared with the expected ones by hash. THIRD FAMILY (stream data x how the length is stated x neighbours in the file x history): stream alphabet T = {object stream with 3 members, ordinary stream} x data {not encoded, FlateDecode healthy, FlateDecode with a wrong Adler-32, FlateDecode with a broken stored-block header at 10/16 of the data, FlateDecode cut off at 10/16} x decoded length {2^7, 2^16} bytes (thorough {2^7, 2^10, 2^13, 2^16, 2^19}) x /Length {direct, a reference to an integer object of its own, a reference to the one integer object of the file that every stream of the same encoded length shares} = 60 (thorough 150) streams, the zlib data assembled by hand from 16 stored blocks; files = all sequences of 1 and 2 streams of T (3660; thorough 22650, and all 27000 sequences of 3 of the 30 streams of 128 bytes), plus long files of 64 streams (drawn from T: 3, thorough 12; drawn from the 128-byte streams of T: 3, thorough 12). Oracle: every object of stream j (the stream, its 3 members, its length object) is in every load exactly what it is when the other streams are left out of the file and the thread is fresh; a stream that is not decoded while loading holds the bytes written, the members of a healthy object stream are the objects written; catalog, page tree root, shared length objects, trailer and maximum id are constant. Loads per file: twice in a row on one fresh thread (pool of 1); long-lived pools of {1,2,3,4,8,16} threads and the global pool, which load all single-stream files and the long ones (thorough: and all files of 2 streams) in turn and then a closed walk over the single-stream files in which every ordered pair occurs back to back (driven concurrently); long files on fresh pools of {1,2,3,4,8,16} threads x 3 (thorough 25) loads; the same family run by the sequential build on itself (fresh threads, one long-lived worker, a plain thread) and its fresh-thread documents compared with the expected ones by hash. The second and the third family leave the merge-order hook alone", false);
+    let mut rep = Report::new("files with k = 1..4 (thorough 6) object streams; one object number present in every stream with a different value and used as the /Length of a stream, its cross-reference entry designating each container in turn / free / absent / an ordinary object / a container that does not list it; an object listed twice in one index; zero-length and indirect-length streams; wide files (up to 8, thorough 16, containers x 300 index entries over a pool of few numbers). Per file: all k! merge orders through hook H1 (capped at 720), 6 pool sizes {1,2,3,4,8,16} x 3 (thorough 25) repeated loads, all compared with the --no-default-features build of the same harness. SECOND FAMILY (objects at a parser limit x history of the parsing threads): object alphabet O = {arrays, dictionaries, arrays and dictionaries alternating, parentheses in a literal string} x {ordinary object, member of an object stream} x nesting depth {2, A-1, A, A+1, A+6}, A = the deepest nesting that loads when the object is alone in a file (probed over 20..=112 on fresh threads; 40 objects); files = all sequences of 1 and 2 (thorough: and 3) objects of O, plus long files of 64 objects (A+1 and A alternating per kind and position: 8; drawn from O: 3, thorough 12). Oracle: every object fares in every load exactly as it does alone in a file on a fresh thread (and a loaded object equals the object written), the rest of the document is constant. Loads per file: a fresh pool of 1 thread (one worker parses everything in file order); long-lived pools of {1,2,3,4,8,16} threads and the global pool, which load all files of up to 2 objects and the long ones in turn and then a closed walk over the single-object files in which every ordered pair occurs back to back (driven concurrently; their history is the whole enumeration); long files on fresh pools of {1,2,3,4,8,16} threads x 3 (thorough 25) loads; every sequence of 2 (thorough 3) single-object files on one fresh thread; the same family run by the sequential build on itself (fresh threads, one long-lived worker, a plain thread) and its fresh-thread documents compared with the expected ones by hash. THIRD FAMILY (stream data x how the length is stated x neighbours in the file x history): stream alphabet T = {object stream with 3 members, ordinary stream} x data {not encoded, FlateDecode healthy, FlateDecode with a wrong Adler-32, FlateDecode with a broken stored-block header at 10/16 of the data, FlateDecode cut off at 10/16} x decoded length {2^7, 2^16} bytes (thorough {2^7, 2^10, 2^13, 2^16, 2^19}) x /Length {direct, a reference to an integer object of its own, a reference to the one integer object of the file that every stream of the same encoded length shares} = 60 (thorough 150) streams, the zlib data assembled by hand from 16 stored blocks; files = all sequences of 1 and 2 streams of T (3660; thorough 22650, and all 27000 sequences of 3 of the 30 streams of 128 bytes), plus long files of 64 streams (drawn from T: 3, thorough 12; drawn from the 128-byte streams of T: 3, thorough 12). Oracle: every object of stream j (the stream, its 3 members, its length object) is in every load exactly what it is when the other streams are left out of the file and the thread is fresh; a stream that is not decoded while loading holds the bytes written, the members of a healthy object stream are the objects written; catalog, page tree root, shared length objects, trailer and maximum id are constant. Loads per file: twice in a row on one fresh thread (pool of 1); long-lived pools of {1,2,3,4,8,16} threads and the global pool, which load all single-stream files and the long ones (thorough: and all files of 2 streams) in turn and then a closed walk over the single-stream files in which every ordered pair occurs back to back (driven concurrently); long files on fresh pools of {1,2,3,4,8,16} threads x 3 (thorough 25) loads; the same family run by the sequential build on itself (fresh threads, one long-lived worker, a plain thread) and its fresh-thread documents compared with the expected ones by hash. FOURTH FAMILY (layout of the file around its ordinary objects: bytes in front of the header x form of the cross-reference section x number in an object's header against the key of the entry that points at it x header markers inside the objects x length): slot alphabet L = {the object that entry 3+j points at says in its header: its own number, the number of the next entry, of the previous entry, of the entry half a file away (these three: two in-use entries yield the same object id with different contents), a number that has no entry} x {dictionary with 8 numbers, the same with a string that holds the header marker %PDF-, embedded-file stream without filter whose data is a complete small PDF file} = 15 slots, every copy saying for which entry it was written; files = {classic cross-reference table with trailer, cross-reference stream} x bytes in front of the header {none, 2^7, 2^13} (thorough {none, 2^7, 2^10, 2^13, 2^16, 2^19}) of wrapper text with near misses of the marker x all sequences of 1 and 2 slots of L (1440 files; thorough 2880, and with none or 2^7 bytes in front all sequences of 3: 13500), plus long files of 64 and 400 (thorough and 1000) slots x {table, stream} x bytes in front {none, 2^7, 2^19} (thorough {none, 2^7, 2^19, 2^21}): per relation but 'own number' the relation alternating with 'own number' and the relation throughout (8 shapes), and 3 (thorough 6) draws from L (132 long files; thorough 336). Oracle: every load gives the document that one fresh thread gives (a pool of one worker), and that document equals the sequential build's (by hash; the first differences spelled out); independent of the loader: the version is the one the file's header states, the document holds exactly the object numbers that the headers state (plus catalog, page tree root, cross-reference stream) and every object is one of the copies written under its number (put together from the library's data types). Loads per file: one fresh thread; long-lived pools of {1,2,3,4,8,16} threads and the global pool (driven concurrently), which load every short file once and every long file 3 (thorough 10) times; the sequential build loads every file on a fresh thread and on one plain thread. The second, the third and the fourth family leave the merge-order hook alone", false);
     let t0 = std::time::Instant::now();
     let times = std::env::var("LOPDF_VERIF_C08_TIMES").is_ok();
     // the sequential build works on the second and third family while this build works on the first
     let seq_limits = std::thread::spawn(move || seq_digests_part(thorough, "limits"));
     let seq_streams = std::thread::spawn(move || seq_digests_part(thorough, "streams"));
+    let seq_layouts = std::thread::spawn(move || seq_digests_part(thorough, "layouts"));
     let seq = match seq_digests_part(thorough, "specs") { Ok(v) => v, Err(e) => { eprintln!("c08: {}", e); std::process::exit(3); } };
     for s in specs(thorough) {
         let Some(sd) = seq.get(spec_name(&s)).and_then(|x| x.as_str()) else { eprintln!("c08: no sequential digest for {}", spec_name(&s)); std::process::exit(3); };
@@ -1163,14 +1607,16 @@ pub fn run(thorough: bool) -> Report {
     if times { eprintln!("c08 first family: {:.1} s", t0.elapsed().as_secs_f64()); }
     // the sequential build has been at the third family since the start; its answer is needed last
     let seq3 = move || match seq_streams.join().unwrap_or_else(|_| Err("the thread waiting for the sequential build died".into())) { Ok(v) => v, Err(e) => { eprintln!("c08: {}", e); std::process::exit(3); } };
-    // the second and the third family leave the hook alone and run side by side
+    let seq4 = move || match seq_layouts.join().unwrap_or_else(|_| Err("the thread waiting for the sequential build died".into())) { Ok(v) => v, Err(e) => { eprintln!("c08: {}", e); std::process::exit(3); } };
+    // the second, third and fourth family leave the hook alone and run side by side
     let repeats = if thorough { 25 } else { 3 };
-    let (r2, r3) = std::thread::scope(|sc| {
+    let (r2, r3, r4) = std::thread::scope(|sc| {
         let h2 = sc.spawn(|| { let mut r = Report::new("part", false); check_limits(thorough, &seq, repeats, &mut r); if times { eprintln!("c08 second family: {:.1} s", t0.elapsed().as_secs_f64()); } r });
         let h3 = sc.spawn(move || { let mut r = Report::new("part", false); check_streams(thorough, seq3, repeats, &mut r); if times { eprintln!("c08 third family: {:.1} s", t0.elapsed().as_secs_f64()); } r });
-        (h2.join().expect("second family"), h3.join().expect("third family"))
+        let h4 = sc.spawn(move || { let mut r = Report::new("part", false); check_layouts(thorough, seq4, repeats, &mut r); if times { eprintln!("c08 fourth family: {:.1} s", t0.elapsed().as_secs_f64()); } r });
+        (h2.join().expect("second family"), h3.join().expect("third family"), h4.join().expect("fourth family"))
     });
-    rep.merge(r2); rep.merge(r3);
+    rep.merge(r2); rep.merge(r3); rep.merge(r4);
     let s0 = Spec { k: 3, mode: Mode::Free, wide: 0 };
     rep.sample(format!("{}: {}", spec_name(&s0), String::from_utf8_lossy(&build_file(&s0)).chars().filter(|c| c.is_ascii() && !c.is_control() || *c == '\n').skip(520).take(300).collect::<String>()));
     rep
@@ -1179,6 +1625,7 @@ pub fn run(thorough: bool) -> Report {
 pub fn replay(v: &Value) -> Result<(), String> {
     if v.get("limit").is_some() { return replay_limit(v); }
     if v.get("streams").is_some() { return replay_streams(v); }
+    if v.get("layout").is_some() { return replay_layout(v); }
     let s = spec_from(&v["spec"]);
     let seq = seq_digests_part(true, "specs").or_else(|_| seq_digests_part(false, "specs"))?;
     let sd = seq.get(spec_name(&s)).and_then(|x| x.as_str()).ok_or("no sequential digest for this file")?.to_string();
